@@ -210,7 +210,6 @@ void ascon_masked_word_x3_zero
     word->S[0] = random1 ^ random2;
     word->S[1] = ascon_mask64_rotate_share1_0(random1);
     word->S[2] = ascon_mask64_rotate_share2_0(random2);
-    word->S[3] = 0;
 #if ASCON_MASKED_MAX_SHARES >= 4
     word->S[3] = 0;
 #endif
